@@ -63,7 +63,7 @@ func callParser(api ParserAPI, kind string, input []byte) parseOutcome {
 	select {
 	case o := <-ch:
 		return o
-	case <-time.After(5 * time.Second):
+	case <-time.After(30 * time.Second):
 		return parseOutcome{timeout: true}
 	}
 }
@@ -379,10 +379,10 @@ func mustJSON(v interface{}) []byte {
 func init() {
 	comp := map[string]string{
 		"git.ParseTree/TreeIter, ParseCommit, ParseTag, ParseReference, ParseBatchHeader": "real code, called directly through the glue (no process, no pipe)",
-		"reader loops of the three pipelines (truncation part)":                            "real code in engine A against simulated peers that stop after N bytes with exit status 0",
+		"reader loops of the three pipelines (truncation part)":                           "real code in engine A against simulated peers that stop after N bytes with exit status 0",
 	}
 	Register(&Prop{ID: "C16", Check: checkC16, Replay: judgeC16, Components: comp,
-		Rule: "(a) losslessness: every tree / commit / tag body of generated worlds (hostile and long names, gpgsig / mergetag / unknown multi-line headers, messages imitating headers, missing message or blank line) through the real parsers: re-serialised tree entries reproduce the object, tree / parents / object / type equal the model's own header-block parser, sizes equal the byte length; for-each-ref and cat-file header lines of the world parse to the model's values, 'missing' lines are errors; (b) totality under corruption faults of those valid bodies: bit flips, every truncation point (objects <= 400 bytes), splices, duplicated / removed lines, overwrites with NUL/LF/SP/0xff, random bytes - each call under recover with a 5 s watchdog; a panic, entries larger than the input or non-termination is a violation; (c) truncation points (40 evenly spaced offsets per stream in the quick tier, 400 in the thorough tier) of the four listing streams served with exit status 0 through the real reader loops: no crash, no hang. Coverage-guided fuzzing over all byte strings is a different technique and is not claimed. distinct by world hash"})
+		Rule: "(a) losslessness: every tree / commit / tag body of generated worlds (hostile and long names, gpgsig / mergetag / unknown multi-line headers, messages imitating headers, missing message or blank line) through the real parsers: re-serialised tree entries reproduce the object, tree / parents / object / type equal the model's own header-block parser, sizes equal the byte length; for-each-ref and cat-file header lines of the world parse to the model's values, 'missing' lines are errors; (b) totality under corruption faults of those valid bodies: bit flips, every truncation point (objects <= 400 bytes), splices, duplicated / removed lines, overwrites with NUL/LF/SP/0xff, random bytes - each call under recover with a 30 s watchdog; a panic, entries larger than the input or non-termination is a violation; (c) truncation points (40 evenly spaced offsets per stream in the quick tier, 400 in the thorough tier) of the four listing streams served with exit status 0 through the real reader loops: no crash, no hang. Coverage-guided fuzzing over all byte strings is a different technique and is not claimed. distinct by world hash"})
 }
 
 func firstBytesStr(s string, n int) string {
